@@ -177,15 +177,148 @@ def nontrivial(case, out):
     return out in ("A", "R") and f[-1] != "-"
 
 
+def prms(bdir):
+    """algorithm name -> the permission names its entry points ask for, read from the running registry"""
+    r = subprocess.run([os.path.join(bdir, "h"), "tables"], stdout=subprocess.PIPE, text=True, env=dict(os.environ, **vlib.SAN_ENV))
+    out = {}
+    for l in r.stdout.split("\n"):
+        f = l.split(" ")
+        if f[0] == "alg":
+            out[f[2]] = dict(x.split("=", 1) for x in f[3:] if "=" in x)
+    return out
+
+
+META = [("none", {}), ("use=sig", {"use": "sig"}), ("use=enc", {"use": "enc"}), ("use=other", {"use": "x"}),
+        ("key_ops=[]", {"key_ops": []}), ("key_ops=[needed]", None), ("key_ops=[other]", {"key_ops": ["deriveBits"]}),
+        ("key_ops=[other,needed]", "mix"), ("use=sig+key_ops=[needed]", "sig+"), ("use=enc+key_ops=[other]", {"use": "enc", "key_ops": ["deriveBits"]})]
+
+
+def with_meta(key, meta, op):
+    k = dict(key)
+    if meta is None:
+        k["key_ops"] = [op]
+    elif meta == "mix":
+        k["key_ops"] = ["deriveBits", op]
+    elif meta == "sig+":
+        k["use"] = "sig"
+        k["key_ops"] = [op]
+    else:
+        k.update(meta)
+    return k
+
+
+def entry_grid(ctx, dist):
+    """use / key_ops enforced AT every entry point, on both keys of an exchange: otherwise valid material, only the
+    key's metadata varies; expectation from the grant formula with the permission name the registry declares"""
+    import hashlib
+    import hmac as pyhmac
+    import jwsgen as G
+    bdir = ctx["bdir"]
+    rnd = random.Random(ctx["seed"] + 5)
+    P = prms(bdir)
+    keys = G.standard_keys(bdir)
+    J = G.dumps
+    both, impl_only, want = [], [], {}
+    ec = keys["P-256"]
+    ec2 = G.strip_meta(G.gen_keys(bdir, [{"kty": "EC", "crv": "P-256", "key_ops": ["deriveKey"]}])[0])
+    rsa = keys.get("RSA2048")
+    hk = G.oct_key(rnd, 32)
+    kw = G.oct_key(rnd, 16)
+    prot = G.b64(J({"alg": "HS256"}).encode())
+    pay = G.b64(b"c05")
+    mac = pyhmac.new(G.unb64(hk["k"]), (prot + "." + pay).encode(), hashlib.sha256).digest()
+    hs_tok = {"protected": prot, "payload": pay, "signature": G.b64(mac)}
+    # material produced once with clean keys
+    pre = G.harness(bdir, ["jwssig\t%s\t%s\t%s" % (J({"payload": pay}), J({"protected": {"alg": "ES256"}}), J(ec)),
+                           "jweenc\t%s\t-\t%s\t00" % (J({"protected": {"alg": "A128KW", "enc": "A128GCM"}}), J(kw)),
+                           "jweenc\t%s\t-\t%s\t00" % (J({"protected": {"alg": "ECDH-ES+A128KW", "enc": "A128GCM"}}), J(G.pub_of(ec))),
+                           "jweenc\t%s\t-\t%s\t00" % (J({"protected": {"alg": "RSA-OAEP", "enc": "A128GCM"}}), J(G.pub_of(rsa)) if rsa else "{}")])
+    es_tok, kw_tok, ec_tok, rsa_tok = pre
+    for tag, meta in META:
+        def add(lst, case, op, what):
+            k_ok = None
+            lst.append(case)
+            want[case] = (op, tag, what)
+        sp, vp = P["HS256"]["sprm"], P["HS256"]["vprm"]
+        add(both, "jwssig\t%s\t%s\t%s" % (J({"payload": pay}), J({"protected": {"alg": "HS256"}}), J(with_meta(hk, meta, sp))), sp, "sign HS256")
+        add(both, "jwsver\t%s\t-\t%s\t0" % (J(hs_tok), J(with_meta(hk, meta, vp))), vp, "verify HS256")
+        add(impl_only, "jwssig\t%s\t%s\t%s" % (J({"payload": pay}), J({"protected": {"alg": "ES256"}}), J(with_meta(ec, meta, P["ES256"]["sprm"]))), P["ES256"]["sprm"], "sign ES256")
+        if not es_tok.startswith(("ERR", "CRASH")):
+            add(impl_only, "jwsver\t%s\t-\t%s\t0" % (es_tok, J(with_meta(G.pub_of(ec), meta, P["ES256"]["vprm"]))), P["ES256"]["vprm"], "verify ES256")
+        e, d = P["A128KW"]["eprm"], P["A128KW"]["dprm"]
+        add(impl_only, "jweenc\t%s\t-\t%s\t00" % (J({"protected": {"alg": "A128KW", "enc": "A128GCM"}}), J(with_meta(kw, meta, e))), e, "wrap A128KW")
+        if not kw_tok.startswith(("ERR", "CRASH")):
+            add(both, "jweunw\t%s\t-\t%s" % (kw_tok, J(with_meta(kw, meta, d))), d, "unwrap A128KW")
+        e, d = P["ECDH-ES+A128KW"]["eprm"], P["ECDH-ES+A128KW"]["dprm"]
+        add(impl_only, "jweenc\t%s\t-\t%s\t00" % (J({"protected": {"alg": "ECDH-ES+A128KW", "enc": "A128GCM"}}), J(with_meta(G.pub_of(ec), meta, e))), e, "wrap ECDH-ES+A128KW")
+        if not ec_tok.startswith(("ERR", "CRASH")):
+            add(impl_only, "jweunw\t%s\t-\t%s" % (ec_tok, J(with_meta(ec, meta, d))), d, "unwrap ECDH-ES+A128KW")
+        if rsa and not rsa_tok.startswith(("ERR", "CRASH")):
+            e, d = P["RSA-OAEP"]["eprm"], P["RSA-OAEP"]["dprm"]
+            add(impl_only, "jweenc\t%s\t-\t%s\t00" % (J({"protected": {"alg": "RSA-OAEP", "enc": "A128GCM"}}), J(with_meta(G.pub_of(rsa), meta, e))), e, "wrap RSA-OAEP")
+            add(impl_only, "jweunw\t%s\t-\t%s" % (rsa_tok, J(with_meta(rsa, meta, d))), d, "unwrap RSA-OAEP")
+        e = P["A128GCM"]["eprm"]
+        add(impl_only, "keyok\tenc\tA128GCM\t%s" % J(with_meta(kw, meta, e)), e, "content encryption A128GCM")
+        x = P["ECDH"]["prm"]
+        add(both, "exc\t%s\t%s" % (J(with_meta(ec, meta, x)), J(G.pub_of(ec2))), x, "exchange, local key")
+        add(both, "exc\t%s\t%s" % (J(ec2), J(with_meta(G.pub_of(ec), meta, x))), x, "exchange, remote key")
+        add(both, "exc\t%s\t%s" % (J(dict(ec2, alg="ECMR")), J(with_meta(dict(G.pub_of(ec), alg="ECMR"), meta, x))), x, "exchange ECMR, remote key")
+    dist["entry-point grant grid"] = len(both) + len(impl_only)
+    return both, impl_only, want
+
+
+def entry_verdict(case, out):
+    f = case.split("\t")
+    if out.startswith("CRASH"):
+        return "CRASH"
+    if f[0] == "jwsver":
+        return "A" if out == "T" else "R"
+    if f[0] == "keyok" or out in ("A", "R"):
+        return out
+    return "R" if out == "ERR" else "A"
+
+
 def correspond(ctx):
     names = registry(ctx["bdir"])
     cases, dist = gen(ctx["tier"], ctx["seed"], names)
+    both, impl_only, want = entry_grid(ctx, dist)
+    base = Oracle(names)
+
+    def oracle(case, out):
+        if case in want:
+            op, tag, what = want[case]
+            f = case.split("\t")
+            key = json.loads(f[3]) if f[0] in ("jwssig", "jwsver", "jweenc", "jweunw", "keyok") else None
+            if f[0] == "exc":
+                key = json.loads(f[1]) if "local" in what else json.loads(f[2])
+            g = grant(key, False, op)
+            v = entry_verdict(case, out)
+            if v == "CRASH":
+                return ("crash:entry:" + what, "crash: " + out[:200])
+            if v == "A" and not g:
+                return ("entry-not-granted-proceeds:%s:%s" % (what, tag), "%s proceeds with a key whose use/key_ops (%s) do not grant '%s'" % (what, tag, op))
+            if v == "R" and g:
+                return ("entry-granted-refused:%s:%s" % (what, tag), "%s is refused although the key's use/key_ops (%s) grant '%s'" % (what, tag, op))
+            return None
+        return base(case, out)
+
+    def normalize(case, out):
+        if case in want and case.startswith("exc\t"):
+            return "CRASH" if out.startswith("CRASH") else ("R" if out == "ERR" else "A")
+        return out
+
+    cases = cases + both
+    for c, o in zip(impl_only, vlib.run_cases(os.path.join(ctx["bdir"], "h"), impl_only)):
+        v = oracle(c, o)
+        if v:
+            ctx["rep"].violation(v[0], v[1], {"case": c, "implementation": o[:600]})
     st = runner.standard(
-        ctx, cases, Oracle(names), nontrivial,
-        rule="jose_jwk_prm on all 2^8 key_ops subsets (+junk) x 10 'use' values x operations x req; declared-alg grids: every ordered pair of registered names of the kind (+ foreign names) at sign, verify, unwrap, content encrypt/decrypt, exchange, the object being produced by the library with a key valid for the header's algorithm; non-trivial = both names present / key carries metadata",
+        ctx, cases, oracle, nontrivial, normalize=normalize,
+        rule="jose_jwk_prm on all 2^8 key_ops subsets (+junk) x 10 'use' values x operations x req; use/key_ops enforced at every entry point (sign, verify, wrap, unwrap for HMAC/ECDSA/AES-KW/ECDH-ES/RSA-OAEP, content encryption, both keys of ECDH and ECMR exchanges) over 10 metadata shapes with otherwise valid material; declared-alg grids: every ordered pair of registered names of the kind (+ foreign names) at sign, verify, unwrap, content encrypt/decrypt, exchange, the object being produced by the library with a key valid for the header's algorithm; non-trivial = both names present / key carries metadata",
         dist=dist,
         exhaustive_subspaces=["all ordered pairs (header alg, key alg) over the %d signature names + 4 foreign, at sign and verify" % len(names["sign"]),
                               "all (header alg, key alg) over %d key-management and %d content-encryption names at unwrap" % (len(names["wrap"]), len(names["encr"])),
                               "all 2^8 subsets of key_ops with the 5 main 'use' values"])
     st["exhaustive"] = True
+    st["evaluations"] += len(impl_only)
     return st
